@@ -277,8 +277,119 @@ func init() {
 			}
 		}
 		c.extraEv["rule_patterns_naming_a_standard_package"] = n
-		c.assumed["the rule engine (gogrep) resolves `pkg.Member` patterns through types.PkgName when Member is a literal name (dependency, not verified)"] = true
+		c.assumed["the rule engine (gogrep) resolves `pkg.Member` in callee position through types.PkgName when Member is a literal name and pkg is in its table of standard packages or imported by the rule group (dependency, not verified; the table itself is read from the dependency's source on every run)"] = true
+
+		// (2) the qualifier of every such pattern is resolvable by the engine: it is in gogrep's table of standard
+		// packages or the group imports it; otherwise the engine silently falls back to matching the spelling
+		irGroups, ok := c.ruleData()
+		if !ok {
+			return
+		}
+		table, terr := gogrepStdTable(c.e)
+		if terr != nil {
+			c.direct = append(c.direct, &directResult{Name: "rules/engine-table-of-standard-packages/readable", OK: false, Detail: terr.Error()})
+			return
+		}
+		c.extraEv["engine_std_table_entries"] = len(table)
+		builtinRe := regexp.MustCompile(`(^|[^A-Za-z0-9_.$])(append|cap|clear|close|complex|copy|delete|imag|len|make|max|min|new|panic|print|println|real|recover)\(`)
+		calleeRe := regexp.MustCompile(`(^|[^A-Za-z0-9_.$])([a-z][A-Za-z0-9_]*)\.([A-Za-z_][A-Za-z0-9_]*)`)
+		api, aerr := loadStdAPI()
+		if aerr != nil {
+			c.direct = append(c.direct, &directResult{Name: "rules/standard-library-api-files/readable", OK: false, Detail: aerr.Error()})
+			return
+		}
+		nonFunc := 0
+		nb, nq := 0, 0
+		for _, g := range irGroups {
+			for i, r := range g.Rules {
+				for j, pat := range r.Patterns {
+					pn := fmt.Sprintf("rules/%s/rule#%d/pattern#%d", g.Name, i+1, j+1)
+					for _, m := range builtinRe.FindAllStringSubmatch(pat, -1) {
+						nb++
+						c.direct = append(c.direct, &directResult{Name: pn + "/builtin-" + m[2] + "-is-resolved-not-spelled", OK: false,
+							Detail: fmt.Sprintf("pattern %q names the builtin %s literally: the engine matches any identifier spelled %s, so a user-defined function of that name is reported as the builtin; use a pattern variable with Text == %q and Object.Is(`Builtin`)", pat, m[2], m[2], m[2])})
+					}
+					for _, v := range varOccurrences(pat) {
+						for _, b := range []string{"append", "cap", "copy", "len", "new", "make", "delete"} {
+							if textIs(r, v, b) && strings.Contains(pat, "$"+v+"(") {
+								nb++
+								c.direct = append(c.direct, &directResult{Name: pn + "/builtin-" + b + "-is-resolved-not-spelled", OK: hasFilterArg(r, "FilterVarObjectIsOp", v, "Builtin"),
+									Detail: fmt.Sprintf("pattern %q: $%s is required to be spelled %s but not to denote the predeclared function", pat, v, b)})
+							}
+						}
+					}
+					seenQ := map[string]bool{}
+					calleeQual := map[string]bool{} // qualifiers that the same pattern also uses in callee position
+					for _, mi := range calleeRe.FindAllStringSubmatchIndex(pat, -1) {
+						if mi[7] < len(pat) && pat[mi[7]] == '(' && !strings.Contains(pat, "func") && !strings.Contains(pat, "{") {
+							calleeQual[pat[mi[4]:mi[5]]] = true
+						}
+					}
+					for _, mi := range calleeRe.FindAllStringSubmatchIndex(pat, -1) {
+						m := []string{"", "", pat[mi[4]:mi[5]], pat[mi[6]:mi[7]], ""}
+						if mi[7] < len(pat) && pat[mi[7]] == '(' {
+							m[4] = "("
+						}
+						if !std[m[2]] {
+							continue
+						}
+						key := m[2] + "." + m[3] + m[4]
+						if seenQ[key] {
+							continue
+						}
+						seenQ[key] = true
+						nq++
+						_, inTable := table[m[2]]
+						_, imported := g.Imports[m[2]]
+						c.direct = append(c.direct, &directResult{Name: fmt.Sprintf("%s/%s-is-known-to-the-engine-as-a-package", pn, m[2]), OK: inTable || imported,
+							Detail: fmt.Sprintf("pattern %q: %s is neither in the engine's table of standard packages nor imported by the rule group (m.Import): the qualifier is matched by spelling, so a variable or user package named %s is reported as the standard one", pat, m[2], m[2])})
+						if _, isFunc := api.funcs[m[2]+"."+m[3]]; m[4] != "(" && !isFunc {
+							nonFunc++ // a type, variable or constant of a standard package: not a function, outside the statement of C20
+						} else if m[4] != "(" && !calleeQual[m[2]] {
+							// (when the same qualifier is also the callee's, both occurrences are in one scope of a block-free
+							// expression and denote the same object: the callee's resolution covers this one)
+							// a qualified function name outside callee position (an argument, an operand) is compiled as a plain selector
+							c.direct = append(c.direct, &directResult{Name: fmt.Sprintf("%s/%s.%s-outside-callee-position-is-resolved", pn, m[2], m[3]), OK: false,
+								Detail: fmt.Sprintf("pattern %q mentions %s.%s outside callee position: the engine resolves package qualifiers only for the called function, here the qualifier is matched by spelling", pat, m[2], m[3])})
+						}
+					}
+				}
+			}
+		}
+		c.extraEv["rule_patterns_naming_a_builtin"] = nb
+		c.extraEv["rule_pattern_mentions_of_standard_types_variables_constants_not_decided"] = nonFunc
+		c.extraEv["rule_pattern_qualifiers_checked_against_engine_table"] = nq
 	})
+}
+
+// gogrepStdTable reads the name -> path table of standard packages that the rule engine's matcher consults
+// (github.com/quasilyte/gogrep/internal/stdinfo, var Packages) from the dependency's source.
+func gogrepStdTable(e *Engine) (map[string]string, error) {
+	p := e.byPkg["github.com/quasilyte/gogrep/internal/stdinfo"]
+	if p == nil {
+		return nil, fmt.Errorf("package github.com/quasilyte/gogrep/internal/stdinfo is not among the loaded dependencies")
+	}
+	out := map[string]string{}
+	for _, f := range p.Syntax {
+		ast.Inspect(f, func(n ast.Node) bool {
+			vs, ok := n.(*ast.ValueSpec)
+			if !ok || len(vs.Names) != 1 || vs.Names[0].Name != "Packages" || len(vs.Values) != 1 {
+				return true
+			}
+			if cl, ok := vs.Values[0].(*ast.CompositeLit); ok {
+				for _, el := range cl.Elts {
+					if kv, ok := el.(*ast.KeyValueExpr); ok {
+						out[litString(kv.Key)] = litString(kv.Value)
+					}
+				}
+			}
+			return false
+		})
+	}
+	if len(out) == 0 {
+		return nil, fmt.Errorf("var Packages not found in github.com/quasilyte/gogrep/internal/stdinfo")
+	}
+	return out, nil
 }
 
 type ruleGroupPatterns struct {
